@@ -45,6 +45,7 @@ type world struct {
 	hasMux     bool
 	ovfBuilder int   // index in builders of the builder with operations past bit 31
 	ovfBuses   []int // buses sharing it
+	resetBuses []int // buses reset to the default builder with SetCANIDBuilder(nil) as the last construction step
 	ifaceBus   []int // per interface: bus index or -1
 	msgBus     []int // per message: bus it is sent on, or -1
 	deep       bool
@@ -403,6 +404,15 @@ func buildWorld(r *rng, idx int, allowMux bool) *world {
 	}
 	if allowMux {
 		w.addDeepNesting(r)
+	}
+	// LAST construction step, nothing reads the bus afterwards: a bus that had a custom builder goes
+	// back to the default one with SetCANIDBuilder(nil).  A lazily created default builder would be
+	// written by the first READER of the bus (GetCANID, CANIDBuilder(), String, the exporters).
+	if nb >= 3 || !shareOvf {
+		ri := nb - 1
+		w.buses[ri].SetCANIDBuilder(w.builders[0])
+		w.buses[ri].SetCANIDBuilder(nil)
+		w.resetBuses = append(w.resetBuses, ri)
 	}
 	w.desc = fmt.Sprintf("deep=%v buses=%d nodes=%d ifaces=%d msgs=%d sigs=%d types=%d enums=%d mux=%v hintops=%d builderr=%d/%d",
 		w.deep, len(w.buses), len(w.nodes), len(w.ifaces), len(w.msgs), len(w.sigs), len(w.types), len(w.enums), w.hasMux, w.hintOps, w.buildErr, w.buildOps)
